@@ -1,4 +1,5 @@
 import Gnmi.Spec.Relay
+import Gnmi.Model.CliGroup
 import Driver.CA
 import Driver.FQ
 /-!
@@ -18,6 +19,10 @@ One operation line is one scenario:
   in this global order;
 * `<i>V<sync 0|1>!<seed>:<draws>!<value>!…`: target `i` is a fake agent in generator mode
   (`fake.Config.Values`, tokens of the `fq` component): its whole stream, unfolded by the C20 model.
+
+`cli <client> <run> <queries> …` (same arguments, `<client>` ignored): what `gnmi_cli -qt once` displays per
+target at quiescence — the leaves of the pathmap `cli.displayWalk` builds (`Client.cliGroupSorted`) —
+in the observation format of `new`.
 
 Observation: for every target (sorted by name) `<name>=<status>[<leaf>,…]`, status `sync` |
 `nosync` | `err`, leaves `path=value` sorted; leaves whose last element is `zz-end` (the
@@ -190,6 +195,22 @@ def runModel (sc : Scenario) : String :=
     | .once => renderClient name (s.once name sc.queries)
     | .stream _ => renderClient name (s.streamView ("s:" ++ name))))
 
+/-- `gnmi_cli`'s group display (`cli.displayWalk`, `-timestamp ""`) of a client: the leaves of the
+pathmap that `pathmap.add` builds over `WalkSorted` (`Client.cliGroupSorted`, `RX.pmLeaves`),
+rendered like `renderClient`; a client that failed displays nothing -/
+def renderCliClient (name : String) (c : Client) : String :=
+  if c.failed then encStr name ++ "=err[]" else
+  match c.cliGroupSorted with
+  | .ok m => encStr name ++ "=" ++ (if c.synced then "sync" else "nosync") ++ renderLeaves (RX.pmLeaves m)
+  | .err _ => encStr name ++ "=display-err[]"
+  | .panic => encStr name ++ "=display-panic[]"
+
+/-- op `cli`: what `gnmi_cli -qt once` displays per target after everything was relayed -/
+def runCli (sc : Scenario) : String :=
+  let s := (Sys.start (cfgOf sc)).run encStr (stepsOf { sc with client := .once })
+  if s.crashed then "crashed" else
+  " ".intercalate ((sortedTargets sc).map (fun name => renderCliClient name (s.once name sc.queries)))
+
 def itemsOfTarget (sc : Scenario) (name : String) : List TItem :=
   (sc.items.filter (fun x => nameOf sc x.1 == name)).map (·.2)
 
@@ -219,6 +240,12 @@ def step (s : St) (args : List String) : St × String × String :=
   | "new" :: rest =>
     let sc := parseScenario rest
     let m := runModel sc
+    (s, m, if wellFormedScenario sc then runSpec sc else m)
+  | "cli" :: rest =>
+    -- the displayed tree of `gnmi_cli` (group display, ONCE) through `displayWalk` / `pathmap.add`
+    -- (C01.cli_group_display_faithful); spec column as for `new`
+    let sc := parseScenario rest
+    let m := runCli sc
     (s, m, if wellFormedScenario sc then runSpec sc else m)
   | "wf" :: rest =>
     -- is the scenario inside the hypotheses of `C01.pipeline_faithful`? (coverage statistics)
